@@ -265,8 +265,8 @@ class HoldCoalesce:
 class RandomOrder:
     """Each round deliver a random number of randomly chosen head chunks, randomly split."""
 
-    def __init__(self, rng, split=0.3, burst=3, lazy=0.3):
-        self.rng, self.split, self.burst, self.lazy = rng, split, burst, lazy
+    def __init__(self, rng, split=0.3, burst=3, lazy=0.3, join=0.0):
+        self.rng, self.split, self.burst, self.lazy, self.join = rng, split, burst, lazy, join
 
     def deliver(self, net):
         n = 0
@@ -277,6 +277,17 @@ class RandomOrder:
             if not links:
                 break
             link = self.rng.choice(links)
+            if self.join and len(net.queues[link]) > 1 and self.rng.random() < self.join:
+                # TCP coalescing: several writes arrive in ONE data_received call, cut anywhere (typically: complete
+                # message(s) followed by an incomplete one)
+                q = net.queues[link]
+                for _ in range(self.rng.randint(1, min(3, len(q) - 1))):
+                    a = q.popleft()
+                    q[0] = a + q[0]
+                    try:
+                        net.order.remove(link)
+                    except ValueError:
+                        pass
             head = net.queues[link][0]
             if len(head) > 1 and self.rng.random() < self.split:
                 n += net.deliver(link, self.rng.randint(1, len(head) - 1))
